@@ -119,6 +119,7 @@ pub fn hae_stub_cov(_layout: Layout) -> ! {
 }
 
 pub fn n_live() -> usize {
+    assert!(!layout_mismatch(), "ghost: a block was freed with a layout different from the one it was requested with (native log)");
     unsafe {
         let mut n = 0;
         macro_rules! slot {
@@ -297,4 +298,64 @@ pub unsafe fn realloc_stub(ptr: NonNull<u8>, layout: Layout, new_size: usize) ->
         dealloc_stub(ptr, layout);
     }
     p
+}
+
+// ---------------------------------------------------------------- native replay support
+// Under `cargo kani playback` stubs are not applied. When the driver builds the playback test it
+// passes `--cfg verif_playback`: a logging global allocator then feeds the same layout log, so
+// the harness assertions mean the same natively. The logger is inert until a harness arms it.
+#[cfg(verif_playback)]
+pub mod native {
+    use super::*;
+    use std::alloc::{GlobalAlloc, System};
+    pub static mut ARMED: bool = false;
+    pub static mut LAYOUT_MISMATCH: bool = false;
+    pub struct Logger;
+    unsafe impl GlobalAlloc for Logger {
+        unsafe fn alloc(&self, layout: Layout) -> *mut u8 {
+            let p = System.alloc(layout);
+            if ARMED && NALLOC < NLOG {
+                LOG[NALLOC] = Block { addr: p as usize, size: layout.size(), align: layout.align(), live: true };
+                NALLOC += 1;
+            }
+            p
+        }
+        unsafe fn dealloc(&self, ptr: *mut u8, layout: Layout) {
+            if ARMED {
+                let mut found = false;
+                let mut i = 0;
+                while i < NLOG {
+                    if i < NALLOC && LOG[i].live && LOG[i].addr == ptr as usize {
+                        found = true;
+                        if LOG[i].size != layout.size() || LOG[i].align != layout.align() {
+                            LAYOUT_MISMATCH = true;
+                        }
+                        LOG[i].live = false;
+                        NDEALLOC += 1;
+                    }
+                    i += 1;
+                }
+                let _ = found; // blocks allocated before arming (test harness) are not ours
+            }
+            System.dealloc(ptr, layout)
+        }
+    }
+    #[global_allocator]
+    static GA: Logger = Logger;
+}
+/// Called at the start of every harness: no-op under verification, arms the native logger in replay.
+pub fn arm() {
+    #[cfg(verif_playback)]
+    unsafe {
+        NALLOC = 0;
+        NDEALLOC = 0;
+        native::ARMED = true;
+    }
+}
+pub fn layout_mismatch() -> bool {
+    #[cfg(verif_playback)]
+    unsafe {
+        return native::LAYOUT_MISMATCH;
+    }
+    false
 }
